@@ -36,6 +36,8 @@ type MemStream struct {
 	// CloseGate, if set, is called at the entry of Close, before the stream is marked closed: it may
 	// block, which holds the code under test between its decision to shut down and the transport's Close
 	CloseGate func()
+	stalled   bool // the peer does not drain: Write blocks until SetStall(false), Close or Fail
+	wblocked  int  // writers parked by the stall
 }
 
 // NewMemStream returns an open stream.
@@ -90,6 +92,12 @@ func (s *MemStream) Write(p []byte) (int, error) {
 		g(p)
 	}
 	s.mu.Lock()
+	for s.stalled && !s.closed && s.failErr == nil {
+		s.wblocked++
+		s.cond.Broadcast()
+		s.cond.Wait()
+		s.wblocked--
+	}
 	if s.closed {
 		s.mu.Unlock()
 		return 0, ErrClosed
@@ -159,6 +167,37 @@ func (s *MemStream) Fail(err error) {
 	s.failErr = err
 	s.cond.Broadcast()
 	s.mu.Unlock()
+}
+
+// SetStall makes the peer stop (true) or resume (false) draining the stream: while it is stalled a
+// Write blocks, as on a synchronous pipe or a full socket buffer, until the peer resumes or the stream is
+// closed or fails.
+func (s *MemStream) SetStall(b bool) {
+	s.mu.Lock()
+	s.stalled = b
+	s.cond.Broadcast()
+	s.mu.Unlock()
+}
+
+// BlockedWriters returns the number of Write calls parked by the stall.
+func (s *MemStream) BlockedWriters() int {
+	s.mu.Lock()
+	defer s.mu.Unlock()
+	return s.wblocked
+}
+
+// Idle reports if the reader waits in Read with nothing buffered: everything fed has been consumed.
+func (s *MemStream) Idle() bool {
+	s.mu.Lock()
+	defer s.mu.Unlock()
+	return s.blocked && len(s.in) == 0
+}
+
+// Gone reports if a Read call has returned an error (the reader is finished).
+func (s *MemStream) Gone() bool {
+	s.mu.Lock()
+	defer s.mu.Unlock()
+	return s.gone
 }
 
 // SetMaxChunk bounds the bytes served per Read call.
